@@ -445,6 +445,8 @@ def run_obligation(ob, tier, scratch, want_cex=True):
            "unwind_failed": [], "verdict": None, "notes": []}
     timeout = ob.get("timeout", {}).get(tier, 300 if tier == "quick" else 1800) if isinstance(ob.get("timeout"), dict) \
         else ob.get("timeout", 300 if tier == "quick" else 1800)
+    if os.environ.get("VERIF_DEV_TIMEOUT"):
+        timeout = int(os.environ["VERIF_DEV_TIMEOUT"])
     try:
         cfg = gen_config(work, ob.get("config"))
         rec["config"] = {k: cfg[k] for k in (ob.get("config") or {})}
